@@ -228,6 +228,20 @@ fn range_perturbations(report: &Report, cli: &Cli) {
             let bytes = to_bytes(&p);
             let nbits = if nm <= 2 || cli.tier == Tier::Thorough { bytes.len() * 8 } else { (4 * 48 + 3 * 32) * 8 };
             let stride = if nm <= 2 || cli.tier == Tier::Thorough { 1 } else { 5 };
+            // rounds of the inner product argument (and anything else counted) added / removed
+            count_field_edits(&bytes).into_par_iter().for_each(|(what, eb)| {
+                let mut w = base.clone();
+                w["structural_edit"] = json!(what);
+                case(report, w, || {
+                    if let Ok(p2) = from_bytes::<RangeProof<C>, _>(&mut &eb[..]) {
+                        report.trace(1);
+                        if p2 != p && verify_with(tr, "range", version, n, &comms, &p2, &g, &keys) {
+                            return fail("altered-range-proof-verifies", json!({"what": what}));
+                        }
+                    }
+                    Ok(())
+                });
+            });
             (0..nbits).into_par_iter().filter(|b| b % stride == 0).for_each(|bit| {
                 let mut w = base.clone();
                 w["flip_bit"] = json!(bit);
@@ -383,6 +397,15 @@ fn set_proofs(report: &Report, cli: &Cli) {
                                 if set_membership_proof::verify(version, &mut RandomOracle::domain("other"), &set, &c, &p, &g, &keys).is_ok() {
                                     return fail("altered-proof-context-verifies", json!({"what": "other domain"}));
                                 }
+                                // rounds added / removed in the serialised proof
+                                let pb = to_bytes(&p);
+                                for (what, eb) in count_field_edits(&pb) {
+                                    if let Ok(p2) = from_bytes::<set_membership_proof::SetMembershipProof<C>, _>(&mut &eb[..]) {
+                                        if to_bytes(&p2) != pb && set_membership_proof::verify(version, &mut RandomOracle::domain("set"), &set, &c, &p2, &g, &keys).is_ok() {
+                                            return fail("altered-proof-verifies", json!({"kind": "membership", "edit": what}));
+                                        }
+                                    }
+                                }
                             }
                         }
                     }
@@ -410,6 +433,14 @@ fn set_proofs(report: &Report, cli: &Cli) {
                                 let c2 = keys.hide(&Value::<C>::new(set[0]), &r);
                                 if set_non_membership_proof::verify(version, &mut RandomOracle::domain("nset"), &set, &c2, &p, &g, &keys).is_ok() {
                                     return fail("false-statement-verifies", json!({"what": "commitment to a member"}));
+                                }
+                                let pb = to_bytes(&p);
+                                for (what, eb) in count_field_edits(&pb) {
+                                    if let Ok(p2) = from_bytes::<set_non_membership_proof::SetNonMembershipProof<C>, _>(&mut &eb[..]) {
+                                        if to_bytes(&p2) != pb && set_non_membership_proof::verify(version, &mut RandomOracle::domain("nset"), &set, &c, &p2, &g, &keys).is_ok() {
+                                            return fail("altered-proof-verifies", json!({"kind": "non-membership", "edit": what}));
+                                        }
+                                    }
                                 }
                             }
                         }
